@@ -121,11 +121,11 @@ def corpus(rng, n):
             # tempo map; charts are dropped after each parse, so object addresses get reused across the history
             c = gen.gen_chart(rng, "realistic", n_tracks=1, n_groups=rng.choice([10, 40]), n_globals=rng.choice([4, 12]),
                               n_tempos=rng.choice([33, 48, 80]))
-            texts.append({"text": c["text"], "want": None, "res": c["truth"]["resolution"], "kind": "valid"})
+            texts.append({"text": c["text"], "want": None, "res": c["truth"]["resolution"], "kind": "valid", "long_map": True})
             # a sibling with the same number of tempo events at other ticks
             c2 = gen.gen_chart(rng, "realistic", n_tracks=1, n_groups=10, n_globals=6, n_tempos=len(c["truth"]["tempos"]),
                                res=c["truth"]["resolution"])
-            texts.append({"text": c2["text"], "want": None, "res": c2["truth"]["resolution"], "kind": "valid"})
+            texts.append({"text": c2["text"], "want": None, "res": c2["truth"]["resolution"], "kind": "valid", "long_map": True})
         elif r == 3:
             # > 128 distinct sustain tuples in one chart: forces evictions in the default-size memo tables
             res = rng.choice([192, 480, 100, 7])
@@ -352,9 +352,16 @@ def history(rec, rng, texts, base, steps):
     prev = None
     last_chart = {}
     seq = []
-    for s in range(steps):
+    # a directed stretch first: the texts with long tempo maps in strict rotation, every chart dropped before the next parse
+    # (object addresses are reused at once; anything kept "beside" a dead object by identity answers for its successor)
+    longs = [k for k, t in enumerate(texts) if t.get("long_map")]
+    rotation = [longs[j % len(longs)] for j in range(36)] if len(longs) >= 2 else []
+    for s in range(steps + len(rotation)):
         r = rng.random()
-        if prev is not None and r < 0.15:
+        if s < len(rotation):
+            i = rotation[s]
+            rec.cls("history:long_tempo_maps_in_rotation")
+        elif prev is not None and r < 0.15:
             i = prev
         elif prev is not None and texts[prev].get("follow") is not None and r < 0.8:
             i = texts[prev]["follow"]
@@ -381,7 +388,7 @@ def history(rec, rng, texts, base, steps):
                 rec.cls("history:after_other_resolution")
             rec.key(["hist", prev, i, t["text"][:200]])
         # '==' between repeated parses of one text (every 7th step, valid texts)
-        if got["ok"] and s % 7 == 0:
+        if got["ok"] and s % 7 == 0 and s >= len(rotation):
             a = harness.parse(t["text"], harness.pairs([tuple(p) for p in t["want"]]) if t["want"] else None).chart
             b = last_chart.get(i)
             if b is not None:
